@@ -1,7 +1,7 @@
 //! Grammar families enumerated completely (not sampled): G1 conflict-free CFGs, G2 operator tables, G3 GLR grammars.
 #![allow(dead_code)]
 use crate::gram::*;
-use serde_json::Value;
+use serde_json::{json, Value};
 
 pub struct FamGrammar {
     pub id: String,
@@ -97,6 +97,18 @@ pub fn g2() -> Vec<FamGrammar> {
             if post.is_some() { alphabet.push(lit("!")); }
             out.push(FamGrammar { id: g.name.clone(), g, alphabet: alphabet.clone(), has_ws_extras: true, kind: "G2",
                 op_table: Some(OpTable { binary: bin.clone(), prefix: pre.map(|l| ("-".to_string(), l)), postfix: post.map(|l| ("!".to_string(), l)) }) });
+            // the same table with NAMED precedences (`precedences: [["p3","p2","p1"]]`, highest first) instead of numbers
+            if ui == 0 {
+                let mut alts = vec![s("x")];
+                for (op, lvl, right) in &bin {
+                    let body = seq(vec![e(), s(op), e()]);
+                    let name = format!("p{}", lvl);
+                    alts.push(json!({"type": if *right { "PREC_RIGHT" } else { "PREC_LEFT" }, "value": name, "content": body}));
+                }
+                let g = G::new(&format!("g2n_{}", code)).precedence_order(&["p3", "p2", "p1"]).rule("top", e()).rule("e", choice(alts));
+                out.push(FamGrammar { id: g.name.clone(), g, alphabet: vec![lit("x"), lit("+"), lit("*"), lit("^")], has_ws_extras: true, kind: "G2",
+                    op_table: Some(OpTable { binary: bin.clone(), prefix: None, postfix: None }) });
+            }
             // the same table with every binary operator reached through a hidden non-terminal (`_op_k -> op | '&k'`): the
             // production that is shifted then continues with a non-terminal, not a token, after the shared operand
             if ui == 0 || ui == 6 {
